@@ -109,6 +109,13 @@ func (x *Exec) callFunc(p *Path, callee *ssa.Function, binds []SV, args []SV, re
 			if strings.HasPrefix(fl, "implements=") {
 				if ic := x.cf.ByFunc[fl[len("implements="):]]; ic != nil {
 					vars := map[string]SV{"self": x.makeInterface(p, callee.Params[0].Type(), args[0])}
+					switch ptrToNamed(callee.Params[0].Type()) {
+					case "list":
+						// the receiver is the implementation of its registered outer value
+						vars["self"] = x.define(p, "self", term(fmt.Sprintf("(select (Lptr %s) %s)", p.H, args[0].T), SVal))
+					case "object":
+						vars["self"] = x.define(p, "self", term(fmt.Sprintf("(select (Optr %s) %s)", p.H, args[0].T), SVal))
+					}
 					for i, prm := range callee.Params {
 						vars[prm.Name()] = args[i]
 					}
@@ -318,6 +325,7 @@ func (x *Exec) applyContract(p *Path, ct *Contract, vars map[string]SV, results 
 			}
 		}
 		if changed {
+			p.pendingExt = "ghost" // publishing changes no live container
 			x.upd(p, "Kind", kinds)
 		}
 	}
